@@ -24,5 +24,21 @@ run c12-grow-off-by-one runtime/src/write.rs 's/if needed_len > self.cap {/if ne
 run c03-callback-destructor-not-run runtime/src/callback.rs 's/(destructor)(self.data);/let _ = destructor;/' C03
 run c06-kotlin-uses-method-name tool/src/kotlin/mod.rs '0,/method.abi_name.as_str()/s//method.name.as_str()/' C06
 run c11-dart-always-contiguous tool/src/dart/mod.rs 's/fn is_contiguous_enum(\(.*\)) -> bool {/fn is_contiguous_enum(\1) -> bool { return true;/' C11
-run c14-unsorted-forwards tool/src/cpp/header.rs 's/BTreeSet/HashSet/g' C14
-run c05-write-anywhere core/src/hir/lowering.rs 's/Some((last, remaining)) if last.is_write() => (remaining, true),/Some((last, remaining)) if last.is_write() || remaining.iter().any(|p| p.is_write()) => (remaining, true),/' C05
+run c14-unsorted-includes tool/src/c/header.rs 's/BTreeSet/HashSet/g' C14
+run c05-callback-in-struct-accepted core/src/hir/lowering.rs 's/if in_struct || !matches!(P::IN_OUT_STATUS, super::InputOrOutput::Input) {/if false {/' C05
+run c01-callback-params-reversed tool/src/c/ty.rs 's/\.map(|p| self.gen_ty_name(&p.ty, header).to_string())/.rev().map(|p| self.gen_ty_name(\&p.ty, header).to_string())/' C01
+run c03-callback-destructor-twice runtime/src/callback.rs 's/(destructor)(self.data);/(destructor)(self.data); (destructor)(self.data);/' C03
+# reverts of repairs made to /repo: the check that found the defect must fire again
+revert() { # commit checks...
+  c="$1"; shift; name="revert-$c"; if [ -n "$FILTER" ] && [[ "$name" != *$FILTER* ]]; then return; fi
+  git -C /repo diff "$c" "$c~1" > /verif/mutants/$name.patch
+  out=$(timeout 2400 tools/seedtest.sh /verif/mutants/$name.patch "$@" 2>&1); rc=$?
+  echo "$name rc=$rc :: $(echo "$out" | grep -E "^== C[0-9]+ exit=" | tr '\n' ' ')"
+  rm -rf /verif/replays/C*
+}
+revert 2b69b64 C01
+revert a3cad26 C01
+revert 9a81775 C09
+revert b081f38 C05
+revert a9c6d26 C05
+
